@@ -76,6 +76,21 @@ CHECKS = {
    note="Trusted: TLC, the logging source, child-process isolation. 'Time proportional to length' is a work bound on the I/O "
         "log plus a watchdog, not a clock measurement.",
    tech="TLA+ fault actions over the grammar spec, TLC enumeration; S->I replay; I->S read-log validation"),
+ "C04": dict(cat="model_checking", ref="§6 C04",
+   text="LefSyntax.tla is an independent renderer of the supported LEF subset (abstract library -> tokens, per the LEF 5.8 "
+        "reference); MC_LefGen.tla constructs libraries per construct (every statement alone, in every enumerated form, and all "
+        "together; both statement orders; with/without END LIBRARY; versions 5.3-5.8) and TLC emits tokens + expected library. "
+        "Each case is turned into text under 60 lexical variants (keyword case, whitespace/newline/comment styles incl. non-ASCII "
+        "comments, decimal spellings) and parsed; the field-wise projection must equal the abstract library, decimals by value.",
+   note="Trusted: TLC, token->text glue (keyword case, decimal spelling, separators), the hand-written projection. The renderer "
+        "is a function, not a state machine; TLC is used to enumerate the case space and evaluate the rendering rules.",
+   tech="TLA+ renderer spec (LefSyntax) + TLC case enumeration; S->I replay under lexical variants"),
+ "C05": dict(cat="model_checking", ref="§6 C05",
+   text="Inputs are the image of the reader: the parse result of every C04 case; each distinct result is written by the crate and "
+        "re-read; success and equality (== and projection) are required, a writer error is a violation.",
+   note="Trusted: as C04. The statement-by-statement validation of the written text against the grammar (I->S, conformance only) "
+        "is not built; the round trip is the property verdict.",
+   tech="TLA+ renderer spec + TLC case enumeration; S->I replay (write/re-read of reader results)"),
 }
 
 PENDING = {}
@@ -121,6 +136,6 @@ def main():
     }
     json.dump(m, open(os.path.join(V, "MANIFEST.json"), "w"), indent=1)
 
-HOOK_COMMITS = ["d26c551"]
+HOOK_COMMITS = ["d26c551", "ec08288"]
 if __name__ == "__main__":
     main()
